@@ -62,11 +62,18 @@ pub fn deserialize_2026_body_from_stream<R: Read>(
         if length == 0 || count == 0 {
             return Err(EvalErr::SerializationError);
         }
-        buf.resize(length, 0);
         for _ in 0..count {
-            reader
-                .read_exact(&mut buf)
+            // don't allocate the declared length up front, it's not trustworthy.
+            // Let the buffer grow as the bytes are actually read
+            buf.clear();
+            let read = reader
+                .by_ref()
+                .take(length as u64)
+                .read_to_end(&mut buf)
                 .map_err(|_| EvalErr::SerializationError)?;
+            if read != length {
+                return Err(EvalErr::SerializationError);
+            }
             atoms.push(allocator.new_atom(&buf)?);
         }
     }
